@@ -119,7 +119,9 @@ def c03(p, sc, view):
             if booked[m] != slots0:
                 diff = {k: (float(slots0.get(k, 0)), float(booked[m].get(k, 0))) for k in set(slots0) | set(booked[m]) if slots0.get(k) != booked[m].get(k)}
                 bad.append(f"team task {fid}: members {members[0]} and {m} are not booked for the same instants: {diff}")
-        # effort received: per slot the credited amount is that of the fastest member (documented reading)
+        if len({eff[m] for m in members}) > 1:
+            continue    # mixed-efficiency team: "the efficiency of the booked resource" is ambiguous (DESIGN §6 C03)
+        # effort received (uniform efficiency)
         got = Fraction(0)
         for k in set().union(*[set(b) for b in booked.values()]):
             got += max(booked[m].get(k, Fraction(0)) * eff[m] for m in members) / 3600
